@@ -519,6 +519,9 @@ def main():
     a = ap.parse_args()
     seed = int(os.environ.get('VERIF_SEED', '0'))
     if a.what == 'replay':
+        if not a.arg or not os.path.exists(a.arg):
+            log('usage: ./check replay <replay file written by a check>')
+            return 3
         code, out, raw = native(['replay', a.arg])
         log(json.dumps(out) if out else raw)
         return code
